@@ -37,7 +37,8 @@
  *   ylrt <opts> M...                 -> `<yang-library entries> <validation rc> <rebuild rc> <records of the rebuilt context>
  *                                        # <compiled prints equal> <hash equal> <content-id == hash> <legacy ok>
  *                                        <records of the original context>`
- *        entry = m:NAME,REV,NS,FEATURES,DEVIATIONS  or  i:NAME,REV,NS   (read from the re-parsed JSON data), joined by |
+ *        entry = m:NAME,REV,NS,FEATURES,DEVIATIONS,SUBMODULES  or  i:NAME,REV,NS,SUBMODULES  (read from the re-parsed JSON
+ *        data; SUBMODULES = name@revision joined by +), joined by |
  *        fields "P:" idx ":" features before the records: ly_ctx_load_module(record idx, features) on the rebuilding
  *        context BEFORE ly_ctx_new_ylmem is applied to it (an existing, populated context)
  *        fields "Q:" idx ":" features: lys_set_implemented(record idx, features) on the ORIGINAL context after all loads
@@ -777,6 +778,22 @@ put_yl_entries(struct sbuf *o, const struct lyd_node *tree)
             put_leaflist(o, n, "feature");
             sb_add(o, ",", 1);
             put_leaflist(o, n, "deviation");
+        }
+        sb_add(o, ",", 1);
+        {
+            const struct lyd_node *ch;
+            int nsub = 0;
+
+            LY_LIST_FOR(lyd_child(n), ch) {
+                if (!strcmp(ch->schema->name, "submodule")) {
+                    if (nsub++) {
+                        sb_add(o, "+", 1);
+                    }
+                    sb_hex(o, child_val(ch, "name"));
+                    sb_add(o, "@", 1);
+                    sb_hex(o, child_val(ch, "revision"));
+                }
+            }
         }
     }
     ly_set_free(set, NULL);
